@@ -1,7 +1,13 @@
 (* C24 driver: replays the Go trace on the extracted model.  The cryptographic verdicts are
    supplied to the model as the oracles recorded by the harness (computed there by calling the
-   sr25519 primitives directly); an oracle answers only for the authority index the harness
-   evaluated it for, any other query is flagged. *)
+   sr25519 primitives directly); an oracle answers only for the authority index, the verifier
+   info (fork / data epoch) and the transcript epoch the harness evaluated it for, any other
+   query is flagged.
+
+   v / claim cases run verifyAuthorshipRight's model (Model.verify, claim_slot); ep cases run
+   VerificationManager.VerifyBlock's model (Manager.verify_block: choice of the data epoch,
+   stub failures); seq cases thread ONE model state (Manager.mstep: epochInfo cache and
+   onDisabled table) through the VerifyBlock / SetOnDisabled steps. *)
 open Model
 open Vutil
 
@@ -12,10 +18,19 @@ let class_of (o : unit outcome) = match o with
     let tbl = [ (e_missing, "missing"); (e_nopre, "nopre"); (e_noseal, "noseal"); (e_decode, "decode");
                 (e_badidx, "badidx"); (e_over, "over"); (e_badslot, "badslot"); (e_badsec, "badsec");
                 (e_badsig, "badsig"); (e_other, "other"); (e_equiv_err, "equiv-err");
-                (e_equivocated, "equivocated") ] in
+                (e_equivocated, "equivocated");
+                (m_noparent, "noparent"); (m_epoch, "epoch-err"); (m_parent_epoch, "pepoch-err");
+                (m_epoch_lower, "epoch-lower"); (m_slotdur, "slotdur"); (m_info, "info-err") ] in
     (try List.assoc c (List.map (fun (a, b) -> (int_of_nat a, b)) tbl) with Not_found -> "err?")
   | Panic -> "panic"
   | OutOfFuel -> "fuel"
+
+let sd_class_of (o : unit outcome) = match o with
+  | Ok _ -> "ok"
+  | Err c ->
+    let c = int_of_nat c in
+    if c = int_of_nat s_badidx then "badidx" else if c = int_of_nat s_already then "already" else "err"
+  | _ -> "panic"
 
 let field key s =
   let k = key ^ "=" in
@@ -23,7 +38,7 @@ let field key s =
   if String.length s >= kl && String.sub s 0 kl = k then String.sub s kl (String.length s - kl)
   else fail "C24: expected field %s in %s" key s
 
-(* splitmix64 as in harness/verifutil (NewRNG(seed).Bytes(32)) *)
+(* the harness's own splitmix64 derivation of the randomness bytes (c24RndBytes) *)
 let rng_bytes (seed : int64) (k : int) : byte list =
   let s = ref (Int64.add (Int64.mul seed 0x9E3779B97F4A7C15L) 0x1234567L) in
   let next () =
@@ -42,34 +57,59 @@ let babe = bytes_of_string "BABE"
 
 let rec but_last = function [] -> [] | [_] -> [] | x :: r -> x :: but_last r
 
-(* one verified block: configuration, digest layout (as the model sees it), equivocation stub mode
-   and the observable fields; returns (prop, model_eq, finding, tags, detail) *)
-let eval_block allowed n rseed digest_of eq cls same pre key below vrf seal =
+(* the header fields other than the digest, as far as the models look at them:
+   (fork or 0, block number, step number or -1 for a parent) *)
+type rest = int * int * int
+
+(* the recorded oracles of one block as the closures the model takes *)
+type blk = {
+  data : byte list;
+  digest : item list;
+  c : cfg;
+  claimed : n option;
+  mismatch : bool ref;
+  kv : n -> bool;
+  bl : n -> n -> byte list -> tri;
+  vv : n -> n -> byte list -> byte list -> tri;
+  sv : n -> rest -> item list -> byte list -> tri;
+}
+
+let mk_cfg allowed n rseed =
+  { n_auth = n; allowed = allowed; randomness = rng_bytes rseed 32 }
+
+let mk_block (c : cfg) digest_of pre key below vrf seal : blk =
   let pre = field "pre" pre and key = field "key" key and below = field "below" below
   and vrf = field "vrf" vrf and seal = field "seal" seal in
   let data = if pre = "-" || pre = "e" then [] else bytes_of_hex pre in
   let digest = digest_of (PreRuntime (babe, data)) in
-  let c = { n_auth = n_of_hex n; allowed = n_of_hex allowed;
-            randomness = rng_bytes (Int64.of_string ("0x" ^ rseed)) 32 } in
   let claimed = (match decode_predigest data with Some d -> Some (pd_idx d) | None -> None) in
   let mismatch = ref false in
   let for_claimed i v = if Some i = claimed then v () else (mismatch := true; E) in
-  let key_valid i = if Some i = claimed then (match key with "1" -> true | "0" -> false | _ -> mismatch := true; false)
-                    else (mismatch := true; false) in
-  let below_o i _ _ = for_claimed i (fun () -> tri_of mismatch below) in
-  let vrf_o i _ _ _ = for_claimed i (fun () -> tri_of mismatch vrf) in
+  let kv i = if Some i = claimed then (match key with "1" -> true | "0" -> false | _ -> mismatch := true; false)
+             else (mismatch := true; false) in
+  let bl i _ _ = for_claimed i (fun () -> tri_of mismatch below) in
+  let vv i _ _ _ = for_claimed i (fun () -> tri_of mismatch vrf) in
   (* the harness evaluated the seal over the header without its LAST digest item: the model must
      ask for exactly that pre-image *)
-  let seal_o i _ dg _ = if dg <> but_last digest then (mismatch := true; E)
-                        else for_claimed i (fun () -> tri_of mismatch seal) in
-  let equiv_o _ _ = (match eq with "0" -> F | "2" -> T | _ -> E) in
-  let h = { h_rest = (); h_digest = digest } in
-  let m = class_of (verify key_valid below_o vrf_o seal_o equiv_o c h) in
-  let mm1 = !mismatch in
-  let mp = class_of (verify_prefix key_valid below_o vrf_o seal_o equiv_o c h) in
-  mismatch := false;
-  let auth = authorised_b key_valid below_o vrf_o seal_o equiv_o c h in
-  let mm2 = !mismatch in
+  let sv i _ dg _ = if dg <> but_last digest then (mismatch := true; E)
+                    else for_claimed i (fun () -> tri_of mismatch seal) in
+  { data; digest; c; claimed; mismatch; kv; bl; vv; sv }
+
+let equiv_of eq = fun _ _ -> (match eq with "0" -> F | "2" -> T | _ -> E)
+
+(* one verified block against Model.verify: configuration, digest layout (as the model sees it),
+   equivocation stub mode and the observable fields;
+   returns (prop, model_eq, in_scope, finding, tags, detail) *)
+let eval_block (b : blk) allowed eq cls same =
+  let equiv_o = equiv_of eq in
+  let h = { h_rest = (0, 1, 0); h_digest = b.digest } in
+  let m = class_of (verify b.kv b.bl b.vv b.sv equiv_o b.c h) in
+  let mm1 = !(b.mismatch) in
+  let mp = class_of (verify_prefix b.kv b.bl b.vv b.sv equiv_o b.c h) in
+  b.mismatch := false;
+  let auth = authorised_b b.kv b.bl b.vv b.sv equiv_o b.c h in
+  let mm2 = !(b.mismatch) in
+  b.mismatch := false;
   (* property predicate on the implementation's observable: passes <-> authorised.
      SecondarySlots > 2 is not one of the property's configurations: only the correspondence
      is checked there *)
@@ -79,10 +119,10 @@ let eval_block allowed n rseed digest_of eq cls same pre key below vrf seal =
      name.  Inside the guard a REJECTION may carry either the repaired code's error class
      (ErrBadSlotClaim) or the one the pinned code reaches later; an ACCEPTANCE there is the
      finding secondary-kind-not-checked (fixes/C24-secondary-kind.patch repairs it). *)
-  let wrong = wrong_kind c digest in
+  let wrong = wrong_kind b.c b.digest in
   let eq_ = (m = cls || (wrong && cls <> "ok" && mp = cls)) && same = "1" && not mm1 in
   let finding = if not prop && wrong && in_scope && cls = "ok" && mp = cls then "secondary-kind-not-checked" else "-" in
-  let kind = (match decode_predigest data with
+  let kind = (match decode_predigest b.data with
     | Some (Primary _) -> "primary" | Some (SecPlain _) -> "plain" | Some (SecVRF _) -> "vrf" | None -> "undecodable") in
   let tags = ["class-" ^ m; "kind-" ^ kind; "allowed-" ^ allowed] @
              (if wrong then ["wrong-kind"] else []) @ (if auth then ["authorised"] else []) in
@@ -100,44 +140,151 @@ let rec split_on_semi acc cur = function
   | ";" :: r -> split_on_semi (List.rev cur :: acc) [] r
   | x :: r -> split_on_semi acc (x :: cur) r
 
+let hexi s = int_of_string ("0x" ^ s)
+let n_of_i = n_of_int
+
+let digest_of_shape shape prei =
+  let cons = Consensus (babe, []) and sl = Seal (babe, []) and pre2 = PreRuntime (bytes_of_string "aura", [])
+  and fseal = Seal (bytes_of_string "aura", []) in
+  match shape with
+  | 0 -> [prei; sl] | 1 -> [prei; cons; sl] | 2 -> [prei] | 3 -> [sl; PreRuntime (babe, [])]
+  | 4 -> [prei; sl; cons] | 5 -> [] | 6 -> [cons; PreRuntime (babe, []); sl] | 7 -> [prei; pre2; sl]
+  | 8 -> [prei; fseal; sl] | 9 -> [prei; RuntimeEnvUpdated; sl]
+  | 10 -> [prei; cons; fseal; RuntimeEnvUpdated; sl]
+  | _ -> fail "C24: bad shape"
+
+let sort_uniq_n (l : n list) = List.sort_uniq compare (List.map hex_of_n l)
+
 let check inp obs =
   let f = split_ws inp and o = split_ws obs in
   match f with
   | ["v"; allowed; n; _c1; _c2; _epoch; _slot; rseed; _kseed; _badkey; shape; _tag; _idx; _vrfkey; _vrft; _sealkey;
-     _sealt; _cut; eq] ->
+     _sealt; cut; eq] ->
     (match o with
      | [cls; same; pre; key; below; vrf; seal] ->
-       let cons = Consensus (babe, []) and sl = Seal (babe, []) and pre2 = PreRuntime (bytes_of_string "aura", [])
-       and fseal = Seal (bytes_of_string "aura", []) in
-       let shape = int_of_string ("0x" ^ shape) in
-       let digest_of prei = (match shape with
-         | 0 -> [prei; sl] | 1 -> [prei; cons; sl] | 2 -> [prei] | 3 -> [sl; PreRuntime (babe, [])]
-         | 4 -> [prei; sl; cons] | 5 -> [] | 6 -> [cons; PreRuntime (babe, []); sl] | 7 -> [prei; pre2; sl]
-         | 8 -> [prei; fseal; sl] | 9 -> [prei; RuntimeEnvUpdated; sl]
-         | 10 -> [prei; cons; fseal; RuntimeEnvUpdated; sl]
-         | _ -> fail "C24: bad shape") in
-       let (prop, eq_, in_scope, finding, tags, detail) =
-         eval_block allowed n rseed digest_of eq cls same pre key below vrf seal in
+       let shape = hexi shape in
+       let c = mk_cfg (n_of_hex allowed) (n_of_hex n) (Int64.of_string ("0x" ^ rseed)) in
+       let b = mk_block c (digest_of_shape shape) pre key below vrf seal in
+       let (prop, eq_, in_scope, finding, tags, detail) = eval_block b allowed eq cls same in
+       (* the same block through the manager model (genesis parent, own epoch, no stub failure) *)
+       let hdr = { h_rest = (0, 1, 0); h_digest = b.digest } in
+       let mb = class_of (verify_block (fun () -> c) (fun () -> b.kv) (fun () _ -> b.bl) (fun () _ -> b.vv)
+                            (fun () -> b.sv) (equiv_of eq) (fun _ -> Some { h_rest = (0, 10, -1); h_digest = [] })
+                            (fun _ -> true) (fun _ -> Some N0) true (fun _ _ -> Some ()) hdr) in
+       let wrong = List.mem "wrong-kind" tags in
+       let eq_ = eq_ && (mb = cls || (wrong && cls <> "ok")) in
        { prop_ok = prop; model_eq = eq_; nontrivial = in_scope; finding;
-         tags = String.concat "," (tags @ (if shape >= 8 then ["extra-items-before-seal"] else [])); detail }
+         tags = String.concat "," (tags @ (if shape >= 8 then ["extra-items-before-seal"] else [])
+                                   @ (if hexi cut >= 6 then ["cut-inside-field"] else [])
+                                   @ (if eq <> "0" then ["eq-mode-" ^ eq] else []));
+         detail = if detail = "" && not eq_ then "manager-model=" ^ mb else detail }
      | _ -> { (ok ()) with model_eq = false; prop_ok = false; detail = "shape: " ^ obs })
-  | "seq" :: _epoch :: aA :: nA :: _ :: _ :: rA :: _kA :: aB :: nB :: _ :: _ :: rB :: _kB :: steps ->
-    (* every block is judged by the epoch data of ITS OWN fork, whatever the manager verified before *)
+  | ["ep"; allowed; n; _c1; _c2; rseed; _kseed; pg; pe; ce; _tag; _idx; _slot; _sd; _se; hm] ->
+    (match o with
+     | [cls; same; q; w; pre; key; below; vrf; seal] ->
+       let q = field "q" q and w = n_of_hex (field "w" w) in
+       let allowed = hexi allowed and n = n_of_hex n and rseed = Int64.of_string ("0x" ^ rseed) in
+       let pg = hexi pg and hm = hexi hm in
+       let pe = n_of_hex pe and ce = n_of_hex ce in
+       (* the data the stub announces for epoch number d *)
+       let cfg_of (d : n) =
+         let di = Int64.of_string ("0x" ^ hex_of_n d) in
+         mk_cfg (n_of_i ((allowed + Int64.to_int (Int64.rem di 3L)) mod 3)) n (Int64.add rseed (Int64.mul 7L di)) in
+       (* the oracles were evaluated under the data of epoch w with ce in the transcript *)
+       let b = mk_block (cfg_of w) (digest_of_shape 0) pre key below vrf seal in
+       let for_info k v = if k = w then v () else (b.mismatch := true; v ()) in
+       let for_tr k e v = if k = w && e = ce then v () else (b.mismatch := true; v ()) in
+       let asked = ref [] in
+       let info d _ = asked := d :: !asked; if hm = 4 || hm = 5 then None else Some d in
+       let parent_h = { h_rest = (0, 10, -1); h_digest = [] } in
+       let parent _ = if pg = 2 then None else Some parent_h in
+       let is_genesis _ = (pg = 1) in
+       let epoch_of (h : rest header) = (match h.h_rest with
+         | (_, _, -1) -> if hm = 2 then None else Some pe
+         | _ -> if hm = 1 then None else Some ce) in
+       let hdr = { h_rest = (0, 1, 0); h_digest = b.digest } in
+       let run g =
+         g cfg_of (fun k i -> for_info k (fun () -> b.kv i)) (fun k e i s o -> for_tr k e (fun () -> b.bl i s o))
+           (fun k e i s o p -> for_tr k e (fun () -> b.vv i s o p)) (fun k i r dg sg -> for_info k (fun () -> b.sv i r dg sg))
+           (equiv_of "0") parent is_genesis epoch_of (hm <> 3) info hdr in
+       let m = class_of (run verify_block) in
+       let mm1 = !(b.mismatch) in
+       let model_asked = sort_uniq_n !asked in
+       b.mismatch := false;
+       let auth = run block_authorised_b in
+       let mm2 = !(b.mismatch) in
+       let go_asked = if q = "-" then [] else List.sort_uniq compare (String.split_on_char '+' q) in
+       (* property predicate on the implementation's observables: VerifyBlock passes <-> the block is
+          authorised under the data of the epoch that governs it (C24_verify_block_iff) *)
+       let prop = ((cls = "ok") = auth) && same = "1" && not mm2 in
+       let eq_ = m = cls && same = "1" && not mm1 && model_asked = go_asked in
+       let sel = (match select_epoch (pg = 1) (if pg = 1 then None else Some pe) ce with
+           | Ok d -> if d = ce then "ep-own-epoch" else "ep-skipped-epochs"
+           | _ -> "ep-refused") in
+       { prop_ok = prop; model_eq = eq_; nontrivial = true; finding = "-";
+         tags = String.concat "," (["ep"; "class-" ^ m; sel] @ (if auth then ["ep-authorised"] else [])
+                                   @ (if pg = 1 then ["ep-genesis-parent"] else [])
+                                   @ (if hm <> 0 || pg = 2 then ["ep-stub-failure"] else []));
+         detail = if prop && eq_ then "" else
+             Printf.sprintf "go=%s model=%s authorised=%b go-asked=%s model-asked=%s%s" cls m auth q
+               (String.concat "+" model_asked) (if mm1 || mm2 then " ORACLE-MISMATCH" else "") }
+     | _ -> { (ok ()) with model_eq = false; prop_ok = false; detail = "shape: " ^ obs })
+  | "seq" :: epoch :: aA :: nA :: _ :: _ :: rA :: _kA :: aB :: nB :: _ :: _ :: rB :: _kB :: steps ->
+    (* every block is judged by the epoch data of ITS OWN fork, whatever the manager verified before;
+       the model state (epochInfo cache, onDisabled table) is threaded through all the steps *)
     let steps = chunks6 steps in
     let outs = split_on_semi [] [] o in
     if List.length steps <> List.length outs then
       { (ok ()) with model_eq = false; prop_ok = false; detail = "shape: " ^ obs }
     else begin
       let sl = Seal (babe, []) in
-      let results = List.map2 (fun (op, fork, _sfork, _tag, _idx, _slot) out ->
-          let second = (int_of_string ("0x" ^ fork)) mod 2 = 1 in
-          let (allowed, n, rseed) = if second then (aB, nB, rB) else (aA, nA, rA) in
+      let epoch = n_of_hex epoch in
+      let cfg_fork k = if k = 1 then mk_cfg (n_of_hex aB) (n_of_hex nB) (Int64.of_string ("0x" ^ rB))
+                       else mk_cfg (n_of_hex aA) (n_of_hex nA) (Int64.of_string ("0x" ^ rA)) in
+      let st = ref ms_init in
+      let sd_tags = ref [] in
+      let stepno = ref 0 in
+      let results = List.map2 (fun (op, fork, _sfork, _tag, idx, slot) out ->
+          incr stepno;
+          let fork = (hexi fork) mod 2 in
+          let allowed = if fork = 1 then aB else aA in
+          let num = 1 + (Int64.to_int (Int64.unsigned_rem (Int64.of_string ("0x" ^ slot)) 3L)) in
+          let manager (b : blk option) hdr opv =
+            let for_info k v dflt = (match b with
+                | Some b -> if k = fork then v b else (b.mismatch := true; dflt)
+                | None -> dflt) in
+            mstep cfg_fork (fun k i -> for_info k (fun b -> b.kv i) false)
+              (fun k e i s o -> for_info k (fun b -> if e = epoch then b.bl i s o else (b.mismatch := true; E)) E)
+              (fun k e i s o p -> for_info k (fun b -> if e = epoch then b.vv i s o p else (b.mismatch := true; E)) E)
+              (fun k i r dg sg -> for_info k (fun b -> b.sv i r dg sg) E)
+              (equiv_of "0")
+              (fun (h : rest header) -> let (fk, _, _) = h.h_rest in Some { h_rest = (fk, 10, -1); h_digest = [] })
+              (fun _ -> false) (fun _ -> Some epoch) true
+              (fun _ (h : rest header) -> let (fk, _, _) = h.h_rest in Some fk)
+              (fun (a : rest header) (d : rest header) -> let (fa, _, _) = a.h_rest and (fd, _, _) = d.h_rest in Some (fa = fd))
+              (fun (h : rest header) -> let (_, nm, _) = h.h_rest in n_of_i nm)
+              !st opv in
           match op, out with
-          | "1", ["sd"] -> None
+          | "1", [sd] ->
+            let hdr = { h_rest = (fork, num, !stepno); h_digest = [] } in
+            let idx32 = n_of_hex (Printf.sprintf "%Lx" (Int64.logand (Int64.of_string ("0x" ^ idx)) 0xffffffffL)) in
+            let (st', res) = manager None hdr (OpDisable (idx32, hdr)) in
+            st := st';
+            let m = "sd:" ^ sd_class_of res in
+            sd_tags := ("seq-" ^ (String.map (fun ch -> if ch = ':' then '-' else ch) m)) :: !sd_tags;
+            (true, m = sd, true, "-", [], if m = sd then "" else Printf.sprintf "go=%s model=%s" sd m)
           | "0", [cls; same; pre; key; below; vrf; seal] ->
-            Some (eval_block allowed n rseed (fun prei -> [prei; sl]) "0" cls same pre key below vrf seal)
+            let b = mk_block (cfg_fork fork) (fun prei -> [prei; sl]) pre key below vrf seal in
+            let (prop, eq_, sc, fd, tags, detail) = eval_block b allowed "0" cls same in
+            let hdr = { h_rest = (fork, num, !stepno); h_digest = b.digest } in
+            let (st', res) = manager (Some b) hdr (OpVerify hdr) in
+            st := st';
+            let mb = class_of res in
+            let wrong = List.mem "wrong-kind" tags in
+            let eq2 = (mb = cls || (wrong && cls <> "ok")) && not !(b.mismatch) in
+            (prop, eq_ && eq2, sc, fd, tags, if detail = "" && not eq2 then "manager-model=" ^ mb else detail)
           | _ -> fail "C24: bad seq observable %s" obs) steps outs in
-      let blocks = List.filter_map (fun x -> x) results in
+      let blocks = results in
       let prop = List.for_all (fun (p, _, _, _, _, _) -> p) blocks
       and eq_ = List.for_all (fun (_, e, _, _, _, _) -> e) blocks in
       let finding = (match List.filter (fun (_, _, _, fd, _, _) -> fd <> "-") blocks with
@@ -145,7 +292,7 @@ let check inp obs =
           | _ -> "-") in
       let n_ok = List.length (List.filter (fun (_, _, _, _, tags, _) -> List.mem "class-ok" tags) blocks) in
       { prop_ok = prop; model_eq = eq_; nontrivial = true; finding;
-        tags = Printf.sprintf "seq,seq-accepted-%d" (min n_ok 3);
+        tags = String.concat "," ([Printf.sprintf "seq,seq-accepted-%d" (min n_ok 3)] @ List.sort_uniq compare !sd_tags);
         detail = if prop && eq_ then "" else
             String.concat " | " (List.mapi (fun i (p, e, _, _, _, d) -> if p && e then Printf.sprintf "step%d ok" i else Printf.sprintf "step%d %s" i d) blocks) }
     end
@@ -153,8 +300,7 @@ let check inp obs =
     (match o with
      | [kind; vcls; below; pre] ->
        let below = field "below" below and pre = field "pre" pre in
-       let c = { n_auth = n_of_hex n; allowed = n_of_hex allowed;
-                 randomness = rng_bytes (Int64.of_string ("0x" ^ rseed)) 32 } in
+       let c = mk_cfg (n_of_hex allowed) (n_of_hex n) (Int64.of_string ("0x" ^ rseed)) in
        let me = n_of_hex me and slot = n_of_hex slot in
        let mismatch = ref false in
        (* the VRF output/proof the Go claim produced (when it produced a VRF claim) *)
@@ -174,7 +320,7 @@ let check inp obs =
           verify) the model verifies the sealed header of every produced claim *)
        let mv = (match mc with
          | Ok d ->
-           let h = { h_rest = (); h_digest = [PreRuntime (babe, encode_predigest d); Seal (babe, [])] } in
+           let h = { h_rest = (0, 1, 0); h_digest = [PreRuntime (babe, encode_predigest d); Seal (babe, [])] } in
            class_of (verify (fun _ -> true) below_o (fun _ _ _ _ -> T) (fun _ _ _ _ -> T) (fun _ _ -> F) c h)
          | _ -> "-") in
        let claim_eq = (mkind = kind) && (match mc, produced with
@@ -189,4 +335,41 @@ let check inp obs =
      | _ -> { (ok ()) with model_eq = false; prop_ok = false; detail = "shape: " ^ obs })
   | _ -> fail "C24: bad input %s" inp
 
-let () = run_driver check
+(* ---- vm_compute cross-check: a v case re-evaluated inside Coq.  The oracles become Gallina
+   functions that answer the recorded verdict for the claimed authority and E otherwise; the
+   term compares Model.verify's outcome with the implementation's class (helpers oc_is /
+   tri3 come from meta.json's vm_header). *)
+let coq inp obs =
+  match split_ws inp, split_ws obs with
+  | ["v"; allowed; n; _; _; _; _; rseed; _; _; shape; _; _; _; _; _; _; _; eq],
+    [cls; _same; pre; key; below; vrf; seal]
+    when List.mem allowed ["0"; "1"; "2"] ->
+    let shape = hexi shape in
+    let c = mk_cfg (n_of_hex allowed) (n_of_hex n) (Int64.of_string ("0x" ^ rseed)) in
+    let b = mk_block c (digest_of_shape shape) pre key below vrf seal in
+    if wrong_kind b.c b.digest && cls <> "ok" then None else begin
+      let code = (match cls with
+        | "ok" -> Some 0 | "missing" -> Some 1 | "nopre" -> Some 2 | "noseal" -> Some 3 | "decode" -> Some 4
+        | "badidx" -> Some 5 | "over" -> Some 6 | "badslot" -> Some 7 | "badsec" -> Some 8 | "badsig" -> Some 9
+        | "other" -> Some 10 | "equiv-err" -> Some 11 | "equivocated" -> Some 12 | _ -> None) in
+      match code with
+      | None -> None
+      | Some code ->
+        let tri s = (match s with "1" -> "T" | "0" -> "F" | _ -> "E") in
+        let item = function
+          | PreRuntime (e, d) -> Printf.sprintf "PreRuntime %s %s" (coq_bytes e) (coq_bytes d)
+          | Consensus (e, d) -> Printf.sprintf "Consensus %s %s" (coq_bytes e) (coq_bytes d)
+          | Seal (e, d) -> Printf.sprintf "Seal %s %s" (coq_bytes e) (coq_bytes d)
+          | RuntimeEnvUpdated -> "RuntimeEnvUpdated" in
+        let cl = (match b.claimed with Some i -> coq_n i | None -> "(0xffffffffffffffffffff)%N") in
+        Some (Printf.sprintf
+          "oc_is (verify unit (fun i => N.eqb i %s && %s) (fun i _ _ => tri3 (N.eqb i %s) %s) (fun i _ _ _ => tri3 (N.eqb i %s) %s) (fun i _ _ _ => tri3 (N.eqb i %s) %s) (fun _ _ => %s) {| n_auth := %s; allowed := %s; randomness := %s |} {| h_rest := tt; h_digest := [%s] |}) %d"
+          cl (if field "key" key = "1" then "true" else "false")
+          cl (tri (field "below" below)) cl (tri (field "vrf" vrf)) cl (tri (field "seal" seal))
+          (match eq with "0" -> "F" | "2" -> "T" | _ -> "E")
+          (coq_n b.c.n_auth) (coq_n b.c.allowed) (coq_bytes b.c.randomness)
+          (String.concat "; " (List.map item b.digest)) code)
+    end
+  | _ -> None
+
+let () = run_driver ~coq check
